@@ -37,6 +37,13 @@ CLAIMED = {
     "C15": dict(level="model_checking",
                 text=_L_TEXT + "; the Iterator option space of the property's quantifier (0-2 inclusive upper bounds related or not, one exclusive, unknown ones, every lower bound in range, every amount 0..size+1) is enumerated by TLC per reachable log",
                 note=_L_NOTE, technique=_L_TECH),
+    "C17": dict(level="fault_enumeration",
+                text="every crash point (the store after each individual block write) of every TLC-explored history of appends, merges and manifest publications on replicas sharing one store: the store prefix is audited for causal closure (logical next/refs and IPLD links), the block of whatever a call returns must already be stored when it returns, and each returned handle (head hash via NewFromEntryHash and NewFromEntry, manifest via NewFromMultihash) is loaded from the store prefix as of its return and must give the replica's state at that moment; the predicates are evaluated by TLC on the observed trace (Trace_IpfsLog.tla); design level: entries only link backwards",
+                note="crash = loss of all memory, store keeps exactly the writes performed so far (write log of the fake store); one write per Append/Publish in this code base, so prefixes coincide with op boundaries; bounded histories + seeded simulation",
+                technique="TLA+ spec IpfsLog.tla (Publish action, backward links) explored by TLC; histories replayed on the real code with a write-logging store; store prefixes and loader recoveries validated by TLC against Trace_IpfsLog.tla"),
+    "C18": dict(level="model_checking",
+                text=_L_TEXT + "; run with the link-encrypting codec: every stored entry block is scanned for the binary, base32 and base58 forms of every CID of the run and for IPLD links, and decoded by a reader with the same key (must recover identical next/refs and verify), with no key and with another key (must obtain no links); merges between same-key replicas must succeed",
+                note=_L_NOTE + "; secretbox trusted; two fixed 32-byte link keys", technique=_L_TECH),
     "C19": dict(level="model_checking",
                 text="TLC checks the order laws (strict total order of the hash-tiebreak ordering, LWW = HASH on distinct clocks, clock comparison antisymmetric/transitive, respect of clock time, FWW = -LWW, Sort is an ordered permutation) on the transcribed comparators over the complete cube of (time, id, hash) rank triples; the real functions are then evaluated on concrete entries order-isomorphic to every triple of rank triples (several palettes of boundary and negative values) and TLC validates the observed sign table against the same laws (Layer P) and against the transcription (Layer M); sorting.Sort likewise, incl. insertion-sort tie behaviour",
                 note="complete cube for K=3 (27^3 triples) plus K=2 cubes for 13 concrete value palettes; lists up to 12 elements; concrete values are samples of each rank class",
